@@ -48,7 +48,7 @@ def rank_arms(m, names=None):
                 continue
             nm = names[i] if names and i < len(names) else "r%d" % i
             roots[binds[0][1]] = nm
-        out.append(dict(rank=vs[0][0], arm=a, roots=roots, mixed=len(ranks) > 1, nroots=len(vs)))
+        out.append(dict(rank=vs[0][0], arm=a, roots=roots, mixed=len(ranks) > 1, nroots=len(vs), guard=a.get("guard") is not None))
     return out
 
 
@@ -126,3 +126,14 @@ def scrut_names(crate, m):
             name = pretty(n)
         out.append(dict(name=name, node=n, index=idx))
     return out
+
+
+def guarded_arms(ctx, rule, fn, m, inst):
+    """A rank arm with a match guard takes some inputs away from the general arm of that rank: report it."""
+    bad = False
+    for a in m["arms"]:
+        if a.get("guard") is not None and _variants(a["pat"]):
+            bad = True
+            ctx.bad(rule, "%s:%s:guarded-arm" % (inst, _variants(a["pat"])[0][0]), "rank-arm-with-guard:" + short(pretty(a["guard"]), 60), ctx.crate.loc(fn, a["body"]),
+                    "a `%s` arm guarded by `%s` handles part of the inputs of that rank differently from the general arm" % (_variants(a["pat"])[0][0], short(pretty(a["guard"]), 80)))
+    return bad
